@@ -22,3 +22,19 @@ package eio
 //@   loop 0 invariant payloadSize == psum(old(packets), flushed + i) - psum(old(packets), flushed) + i [C13.batch.inv.size]
 //@   loop 0 invariant i >= 2 ==> payloadSize - 1 <= s.maxPayload [C13.batch.inv.fits]
 //@   loop 0 invariant s.maxPayload > 0 && ctname(s.transport) == "polling"
+
+// C13 / C14: configuration defaults and what the handshake announces.
+//@ func newServer
+//@   requires config != nil
+//@   ensures result != nil
+//@   ensures config.DisableMaxBufferSize ==> result.maxBufferSize == 0 [C13.cfg.disable]
+//@   ensures !config.DisableMaxBufferSize && config.MaxBufferSize == 0 ==> result.maxBufferSize == 1000000 [C13.cfg.default]
+//@   ensures !config.DisableMaxBufferSize && config.MaxBufferSize != 0 ==> result.maxBufferSize == config.MaxBufferSize [C13.cfg.keep]
+//@   ensures result.pingInterval == (config.PingInterval == 0 ? 25000000000 : config.PingInterval) [C14.cfg.interval]
+//@   ensures result.pingTimeout == (config.PingTimeout == 0 ? 20000000000 : config.PingTimeout) [C14.cfg.timeout]
+
+//@ func (*Server).newHandshakePacket
+//@   requires s.pingInterval >= 0 && s.pingTimeout >= 0
+//@   callsite Marshal
+//@     requires unbox(arg0, *parser.HandshakeResponse).MaxPayload == s.maxBufferSize [C13.announce]
+//@     requires unbox(arg0, *parser.HandshakeResponse).PingInterval == s.pingInterval / 1000000 && unbox(arg0, *parser.HandshakeResponse).PingTimeout == s.pingTimeout / 1000000 [C14.announce]
